@@ -54,6 +54,12 @@ func (w *failAfter) Write(p []byte) (int, error) {
 	return n, errC19
 }
 
+// the same writer, also an io.StringWriter (what a *bufio.Writer, a *strings.Builder or an http response writer
+// is): whichever of the two methods the printer picks, the contract is the same
+type failAfterSW struct{ failAfter }
+
+func (w *failAfterSW) WriteString(s string) (int, error) { return w.Write([]byte(s)) }
+
 // never fails, forwards in pieces of odd sizes (what a buffered or packetising writer does)
 type rechunk struct {
 	acc  []byte
@@ -291,6 +297,41 @@ func c19Check(c *config, m *ir.Module, ks []int, sample bool) {
 		outs = append(outs, fmt.Sprintf("%d:%s:%s:%d", n, e, md5hex(w.acc), w.calls))
 		kstr = append(kstr, strconv.Itoa(k))
 		o.Nontrivial(fmt.Sprintf("%s|%d", md5hex([]byte(text)), k))
+	}
+	for ki, k := range ks {
+		if ki%3 != 0 && ki != len(ks)-1 {
+			continue
+		}
+		w := &failAfterSW{failAfter{k: k}}
+		var n int64
+		var err error
+		o.Stat("writers.string_writer")
+		if oc, msg := guard(func() error { n, err = m.WriteTo(w); return nil }); oc != ocOk {
+			o.Fail("failing_writer", "", "WriteTo panics with a failing string writer: "+msg, map[string]interface{}{"module": text, "k": k})
+			continue
+		}
+		want := k
+		if k > L {
+			want = L
+		}
+		bad := ""
+		switch {
+		case string(w.acc) != text[:want]:
+			bad = "delivered bytes are not the first k bytes of String()"
+		case n != int64(want):
+			bad = fmt.Sprintf("count %d, accepted %d", n, want)
+		case k < L && err != errC19:
+			bad = "first error not reported"
+		case k >= L && err != nil:
+			bad = "error reported by a writer that did not fail"
+		case w.callsAfter != 0:
+			bad = fmt.Sprintf("%d calls after the failure", w.callsAfter)
+		}
+		if bad != "" {
+			o.Fail("failing_writer", "", bad+" (writer that is also an io.StringWriter)", map[string]interface{}{"module": text, "k": k, "n": n, "err": fmt.Sprint(err), "calls_after": w.callsAfter})
+		} else {
+			o.Pass("failing_writer")
+		}
 	}
 	o.Case("writeto", []string{hxs(rec.chunks), strings.Join(kstr, ",")}, []string{strings.Join(outs, ",")})
 	o.StatN("writers.fail_after_k", len(ks))
